@@ -193,9 +193,23 @@ func CheckC06(m *Model, events []sched.Event, cycle int, now time.Time, st *Stat
 		}
 		evicted := map[string]int{}
 		seen := map[string]bool{}
+		boundNow := map[string]bool{}
 		for i := 0; i <= lastOfAction[action] && i < len(events); i++ {
 			e := &events[i]
+			if e.Kind == "bind" && OK(e) && e.Group == group {
+				// a member bound earlier in this cycle (e.g. the replacement of a terminating pod) is a member
+				if p, ok := m.Pods[e.Key()]; ok && !m.Active(p) && !boundNow[e.Key()] {
+					before[podSetOf(p)]++
+					boundNow[e.Key()] = true
+				}
+				continue
+			}
 			if e.Kind != "evict" || !OK(e) || e.Group != group {
+				continue
+			}
+			if p, ok := m.Pods[e.Key()]; ok && boundNow[e.Key()] && !seen[e.Key()] {
+				seen[e.Key()] = true // bound and evicted again in this cycle
+				evicted[podSetOf(p)]++
 				continue
 			}
 			if p, ok := m.Pods[e.Key()]; ok && m.Active(p) && !seen[e.Key()] {
